@@ -23,7 +23,7 @@ SHARD_TIMEOUT = {"quick": 200, "thorough": 2400}
 
 R_ALPHA = [("d", 1), ("d", 2), ("rest",), ("e", errno.EINTR), ("e", errno.EAGAIN), ("e", errno.EINPROGRESS),
            ("e", errno.ECONNRESET), ("e", errno.EPIPE), ("x", "Socket is closed"), ("t",), ("eof",)]
-W_ALPHA = [("a", 1), ("a", 2), ("all",), ("e", errno.EINTR), ("e", errno.EAGAIN), ("e", errno.ECONNRESET), ("e", errno.EPIPE), ("x", "Socket is closed"), ("t",)]
+W_ALPHA = [("a", 0), ("a", 1), ("a", 2), ("all",), ("e", errno.EINTR), ("e", errno.EAGAIN), ("e", errno.ECONNRESET), ("e", errno.EPIPE), ("x", "Socket is closed"), ("t",)]
 RETRY = {errno.EINTR, errno.EAGAIN, errno.EWOULDBLOCK, errno.EINPROGRESS}
 MODES = [(False, False), (True, False), (True, True)]     # (USE_MSG_WAITALL, fake honours it)
 
